@@ -156,6 +156,41 @@ theorem verifySelect_pass (s : Sess) (m : InMsg) (th tl ai : Bool) (h : (verifyS
               · rw [he] at h; exact ⟨hv, h⟩
               · rw [he] at h; cases h
 
+theorem checkTooLow_none_iff (s : Sess) (m : InMsg) : checkTooLow s m = none ↔ ∃ n, getInt m 34 = .val n ∧ s.store.target ≤ n := by
+  constructor
+  · exact checkTooLow_none s m
+  · rintro ⟨n, hn, h⟩
+    unfold checkTooLow
+    rw [hn]; simp only []; rw [if_neg]; omega
+
+theorem checkTooHigh_none_iff (s : Sess) (m : InMsg) : checkTooHigh s m = none ↔ ∃ n, getInt m 34 = .val n ∧ n ≤ s.store.target := by
+  constructor
+  · exact checkTooHigh_none s m
+  · rintro ⟨n, hn, h⟩
+    unfold checkTooHigh
+    rw [hn]; simp only []; rw [if_neg]; omega
+
+/-- the gate is exactly the condition: when it holds the pipeline passes (and, with the callbacks on, delivers) -/
+theorem verifySelect_complete (s : Sess) (m : InMsg) (th tl ai : Bool) (hb : BeginOK s.cfg m) (hc : CompOK s.cfg m)
+    (ht : TimeGate s m) (hs : SeqGate s m th tl) :
+    verifySelect s m th tl ai = if ai then verifyAppImpl s m else (s, none) := by
+  unfold verifySelect
+  rw [(checkBeginString_none_iff s m).2 hb, (checkCompID_none_iff s m).2 hc, (timeGate_iff s m).2 ht]
+  have h1 : (if tl = true then checkTooLow s m else none) = none := by
+    cases tl
+    · rfl
+    · simp only [if_true]; exact (checkTooLow_none_iff s m).2 (hs.1 rfl)
+  have h2 : (if th = true then checkTooHigh s m else none) = none := by
+    cases th
+    · rfl
+    · simp only [if_true]; exact (checkTooHigh_none_iff s m).2 (hs.2 rfl)
+  rw [h1, h2]
+
+theorem verifyAppImpl_pass (s : Sess) (m : InMsg) (h : NoEmpty m) : verifyAppImpl s m = (s.emit (cbObs s m), callbackVerdict m) := by
+  rcases verifyAppImpl_cases s m with ⟨_, he⟩ | ⟨hn, _⟩
+  · exact he
+  · exact absurd h hn
+
 /-! ## reactions -/
 
 /-- the checks in front of the sequence checks, in the order verifySelect runs them -/
